@@ -157,6 +157,16 @@ def gen_case(rnd, prop, tier):
     # skewed cell probabilities so that rare and populated cells exist
     weights = [[rnd.random() ** 3 + 0.02 for _ in range(s)] for s in sizes]
     recs = [[rnd.choices(range(s), w)[0] for s, w in zip(sizes, weights)] for _ in range(n)]
+    big = mech == 'mst' and rnd.random() < 0.15
+    if big:
+        # two high-cardinality attributes whose every value is occupied (so all survive MST's domain compression at low noise):
+        # the measured pair marginal has > 16k cells, nearly all empty - any size-dependent path in measure/select is taken
+        d = min(len(attrs), rnd.choice([2, 3]))
+        attrs = attrs[:d]
+        sizes = [rnd.randint(129, 150), rnd.randint(129, 150)] + [2] * (d - 2)
+        n = rnd.choice([3, 4]) * max(sizes)
+        off = [rnd.randrange(s) for s in sizes]
+        recs = [[(j + o) % s for s, o in zip(sizes, off)] for j in range(n)]
     bounded = mech == 'mwem' and rnd.random() < 0.5
     adj = 'replace' if bounded else rnd.choice(['remove', 'add'])
     how = rnd.choice(['random', 'rare', 'popular'])
@@ -173,6 +183,8 @@ def gen_case(rnd, prop, tier):
         newrec[0] = (newrec[0] + 1) % sizes[0]
     eps = rnd.choice([0.05, 0.3, 1.0, 1.0, 3.0, 10.0, 30.0, 60.0])    # large eps = low noise: one record becomes comparable to data-dependent thresholds
     delta = rnd.choice([1e-12, 1e-10, 1e-9, 4e-9, 1e-6, 1e-3])
+    if big:
+        eps, delta = rnd.choice([30.0, 60.0, 100.0]), rnd.choice([1e-6, 1e-3])
     params = {}
     if mech == 'aim':
         import itertools
@@ -200,7 +212,7 @@ def gen_case(rnd, prop, tier):
         pairs = [list(c) for c in itertools.combinations(attrs, 2)]
         wl = None if rnd.random() < 0.5 else rnd.sample(pairs, rnd.randint(1, len(pairs)))
         params = dict(rounds=rnd.choice([None, 1, 2, 3, 5]), noise=rnd.choice(['gaussian', 'gaussian', 'laplace', 'normal']), bounded=bounded,
-                      alpha=rnd.choice([0.9, 0.9, 0.5, 0.2]), workload=wl, maxsize_mb=rnd.choice([25, 25, 25, 1e-3, 6e-4, 3e-4]))
+                      alpha=rnd.choice([0.9, 0.9, 0.5, 0.2, 0.95, 0.99]), workload=wl, maxsize_mb=rnd.choice([25, 25, 25, 1e-3, 6e-4, 3e-4]))
     elif mech == 'adagrid':
         tg = []
         if 3 <= d <= 5 and rnd.random() < 0.3:
@@ -389,7 +401,12 @@ def run_case(case, prop):
                 sc = np.asarray(a.get('eff_scale', a['scale']), float)
                 if np.any(xa != xb):
                     n_rel += 1
-                    if a['kind'] == 'normal':
+                    if a.get('truncated'):
+                        # x + g(noise) with g truncating or folding: the support of the release depends on x, the zCDP / pure-DP
+                        # cost of this release is unbounded whatever scale was charged
+                        rho_sum = eps_sum = float('inf')
+                        ledger.append(('truncated-noise:' + '+'.join(a['truncated']), a['i'], float(np.max(sc)), float('inf')))
+                    elif a['kind'] == 'normal':
                         r_ = float(np.sum((xa - xb) ** 2 / (2 * sc ** 2)))
                         rho_sum += r_
                         ledger.append(('gauss', a['i'], float(np.max(sc)), r_))
@@ -444,6 +461,8 @@ def run_case(case, prop):
             probes['aim-annealed>=3'] = 1
     if mech == 'mst' and excA is None:
         probes['mst-completed'] = 1
+        if max(case['sizes']) > 128:
+            probes['mst-marginal>16k-cells'] = 1
     if case.get('prelude'):
         faults['earlier-budget-conversion-in-process'] = 1
     faults['neighbour-' + case['adj']] = 1
